@@ -81,8 +81,8 @@ public:
 
 private:
     struct Session {
-        SocketHandle socket{INVALID_SOCKET_HANDLE};
-        std::array<std::uint8_t, 32> key{};
+        std::atomic<SocketHandle> socket{INVALID_SOCKET_HANDLE};  // closed by other threads while the reader blocks on it
+        std::array<std::uint8_t, 32> key{};  // guarded by sessions_mutex_ once the session is published
         std::string endpoint;
         std::thread reader;
         std::atomic<bool> running{false};
@@ -128,6 +128,7 @@ private:
     static bool set_recv_timeout(SocketHandle socket, std::chrono::milliseconds timeout);
     static void close_socket(SocketHandle socket);
     static void close_session_socket(const std::shared_ptr<Session>& session);
+    static void shutdown_session_socket(const std::shared_ptr<Session>& session);
     static bool configure_socket(SocketHandle socket, bool server_mode);
     static SocketHandle create_socket();
     static std::string endpoint_string(SocketHandle socket);
